@@ -243,6 +243,9 @@ func runC03(c *core.Ctx, i int) {
 		}
 		c.Shape(rc.ds.S.Shape() + "|" + t.Shape())
 	}
+	if !rc.misfit && len(rc.datums) <= 40 && !c03codecHistory(c, rc, targets[i%len(targets)], r) {
+		return
+	}
 	c.Sample(map[string]any{"schema": trunc(rc.ds.S.JSON(), 300), "target": trunc(targets[len(targets)-1].String(), 300), "config": rc.desc})
 }
 
@@ -268,6 +271,9 @@ func runC04(c *core.Ctx, i int) {
 			c.Count(fmt.Sprintf("projection.mode%d", mode), 1)
 			c.Shape(rc.ds.S.Shape() + "|" + p.Shape())
 		}
+	}
+	if len(rc.datums) <= 40 && !c04evolution(c, rc, full, r) {
+		return
 	}
 	// codec level: Skip consumes exactly what Read consumes (sentinel suffix makes over-consumption visible)
 	codecFull, err := buildLibCodec(rc.ds.S, full.RT())
